@@ -110,7 +110,9 @@ PROPS = {
                 cone=["Model/SliceHeap.v", "Proofs/PurityP.v"] + ENGINE_CONE,
                 rule="generated schemas rich in defaults (incl. slice-valued), catches and destination-mutating PostTransforms; inputs as []any and as typed []string / []int slices; reflect-based fingerprints (unexported fields, slice backing-array addresses) of the schema object graph and of the input before and after each execution; the returned destination is then overwritten everywhere and the fingerprints compared again; a second identical use is compared with the first; Validate on schemas without writers must leave the value as it was; every execution is also compared with the Coq engine; distinct = distinct (schema shape, issue codes, mode)",
                 families=[dict(name="purity", family="purity", profile="C19", quick=1200, thorough=20000,
-                               tags=["schema_modified", "input_modified", "validate_wrote", "dest_aliases_schema", "dest_aliases_input", "second_run_differs", "panic"])]),
+                               tags=["schema_modified", "input_modified", "validate_wrote", "dest_aliases_schema", "dest_aliases_input", "second_run_differs", "panic"]),
+                          # the caller's *http.Request: Form / PostForm / URL unchanged by Parse, a second Parse of it gives the same result
+                          dict(name="fe", family="fe", profile="fe", quick=900, thorough=12000, tags=["request_unchanged", "panic"])]),
     "C20": dict(theorems=["C20_str_min", "C20_str_max", "C20_str_len", "C20_slice_min", "C20_slice_max", "C20_slice_len", "C20_int_cmp", "C20_float_cmp",
                           "C20_nan_fails_every_comparison", "C20_str_oneof", "C20_int_oneof", "C20_slice_contains", "C20_has_prefix", "C20_has_suffix",
                           "C20_contains", "C20_classes", "C20_contains_upper", "C20_contains_digit", "C20_contains_special", "C20_uuid",
